@@ -214,7 +214,12 @@ def gen_item(rng, zeroize_ok=True):
             repr_int = pick(rng, INT_REPRS)
             ids = [I('C'), I(repr_int)]
             rng.shuffle(ids)
-            attrs.insert(rng.randrange(len(attrs) + 1), Attr('repr', repr_=('idents', ids)))
+            if chance(rng, 0.35):
+                # the same representation spread over two `#[repr]` attributes, in either order
+                for i in ids:
+                    attrs.insert(rng.randrange(len(attrs) + 1), Attr('repr', repr_=('idents', [i])))
+            else:
+                attrs.insert(rng.randrange(len(attrs) + 1), Attr('repr', repr_=('idents', ids)))
         elif r < 0.44:
             attrs.insert(0, Attr('repr', repr_=('unparsable', None)))
         elif r < 0.46:
